@@ -253,7 +253,8 @@ def site_vertex_flag():
 
 
 def site_connection():
-    tree, _ = T.load(CONN)
+    from .c18htranslate import _norm_tree
+    tree = _norm_tree(CONN)          # normalised tree (see c18stranslate.Norm)
     fn = T.find_def(tree, "SurfaceConnectionVertices._initialize")
     df = _one([s for s in ast.walk(fn) if isinstance(s, ast.Assign) and dotted(s.targets[0]) == "dfct"], "dfct assignment")
     def sub_atom(node):
@@ -298,7 +299,8 @@ def site_connection():
 
 
 def site_operators():
-    tree, _ = T.load(LAP)
+    from .c18htranslate import _norm_tree
+    tree = _norm_tree(LAP)          # normalised tree (see c18stranslate.Norm)
     fn = T.find_def(tree, "laplacian")
     tr = _one([s for s in ast.walk(fn) if isinstance(s, ast.Assign) and isinstance(s.targets[0], ast.Tuple)
                and [dotted(x) for x in s.targets[0].elts] == ["ai", "aj"]], "ai,aj assignment")
